@@ -150,10 +150,9 @@ def isoptional_obligations(chk):
     I = rw.make_interp()
     del I.stubs["typelib.py.inspection.isoptionaltype"]
     func = "typelib.py.inspection.isoptionaltype"
-    tname_f = _z3.Function("name_of_origin", Val, Val)
-    I.stubs["typelib.py.inspection.name"] = Stub("inspection.name", lambda I, p, a, k: SV(tname_f(to_val(a[0]))),
-                                                 "name(origin(t)) is 'Union' / 'UnionType' for unions (C17)")
-    I.stubs["typelib.py.inspection.origin"] = Stub("inspection.origin", lambda I, p, a, k: a[0], None)
+    origin_v = _z3.Function("origin_value", Val, Val)
+    I.stubs["typelib.py.inspection.origin"] = Stub("inspection.origin", lambda I, p, a, k: SV(origin_v(to_val(a[0]))),
+                                                   "origin(t) of a union annotation is typing.Union / types.UnionType (C17)")
     members = _z3.Function("member", Val, IntS, Val)
     nmem = _z3.Function("n_members", Val, IntS)
 
@@ -168,8 +167,9 @@ def isoptional_obligations(chk):
     def mk(I, path):
         t = path.fresh("t")
         path.assume(nmem(t) >= 0)
-        union_names = [VStr(_z3.IntVal(str_id(s))) for s in ("Union", "UnionType")]
-        path.assume(_z3.Or(*[tname_f(t) == u for u in union_names]))     # t is a union
+        import typing
+        import types
+        path.assume(_z3.Or(origin_v(t) == to_val(typing.Union), origin_v(t) == to_val(types.UnionType)))     # t is a union
         return [SV(t)], {}, {"t": t}
     results = I.run_function(func, mk)
     for pi, (path, out, obls, writes, cur) in enumerate(results):
